@@ -186,6 +186,10 @@ func run(raw json.RawMessage) (common.Case, error) {
 			c.Sig = fmt.Sprintf("status-%d-want-%d", res.Status, want)
 		}
 	}
+	if res.Hung {
+		c.GoPred = "the request was never answered although every forwarded write had responded (response channel never closed?)"
+		c.Sig = "no-answer"
+	}
 	return c, nil
 }
 
